@@ -17,7 +17,7 @@ from mc.refs import oalfam as F
 from mc.props import c07
 
 NEEDS_BRIDGEPOINT = True
-BUDGET_S = {'quick': 300, 'thorough': 2400}
+BUDGET_S = {'quick': 3600, 'thorough': 14400}
 ASSUMPTIONS = c07.ASSUMPTIONS + [
     'bounded time: 2 s budget for inputs of at most ~150 characters whose siblings take ~1 ms; a slow case must exceed the '
     'budget twice, alone, in a fresh process, before it is reported',
